@@ -132,7 +132,13 @@ def _update_variable_sharding_metadata(
         return node_states.replace(states=(state,))
       else:
         states_out: list[graph.GraphState | variablelib.VariableState] = []
-        for state, axis in zip(node_states.states, node_states.metadata.axes):
+        axes = node_states.metadata.axes
+        if len(node_states.states) != len(axes):
+          # scan keeps only the vectorized states (those with an int axis)
+          axes = tuple(axis for axis in axes if isinstance(axis, int))
+          if not axes:
+            return node_states
+        for state, axis in zip(node_states.states, axes):
           assert isinstance(state, graph.State | variablelib.VariableState)
           if isinstance(axis, int):
             state = axis_fn(state, axis, transform_metadata)
